@@ -121,14 +121,14 @@ type c15RCase struct {
 	R        rcfg     `json:"reader"`
 	FailAt   int      `json:"failat"` // 0: no fault (fragmentation-only case)
 	Sticky   bool     `json:"sticky"`
-	FailKind int      `json:"failkind,omitempty"` // 0 plain error, 1 wraps io.EOF, 2 wraps io.ErrUnexpectedEOF
+	FailKind int      `json:"failkind,omitempty"` // 0 plain error, 1 wraps io.EOF, 2 wraps io.ErrUnexpectedEOF, 4 / 5 as 0 / 2 with the data of the failing call
 	Skip     []int    `json:"skip,omitempty"`     // skippable frames (payload lengths) in front of the frame
 	OnlySkip bool     `json:"onlyskip,omitempty"` // the source holds the skippable frames only, no data frame
 }
 
 func runC15RWith(c c15RCase, z, data []byte, rec *stat.Rec) *stat.Failure {
 	rec.Eval()
-	src := &inst.Source{Data: z, Chunks: c.R.Src, EOFWith: c.R.EOFWith, ZeroBurst: c.R.ZeroBurst, FailAt: c.FailAt, Sticky: c.Sticky, FailWith: failErr(c.FailKind)}
+	src := &inst.Source{Data: z, Chunks: c.R.Src, EOFWith: c.R.EOFWith, ZeroBurst: c.R.ZeroBurst, FailAt: c.FailAt, Sticky: c.Sticky, FailWith: failErr(c.FailKind), FailData: failWithData(c.FailKind)}
 	rd := lz4.NewReader(src)
 	if err := rd.Apply(lz4.ConcurrencyOption(c.R.Conc)); err != nil {
 		return stat.Failf("C15/reader/apply-fails", "%v", err)
@@ -208,6 +208,9 @@ func runC15RWith(c c15RCase, z, data []byte, rec *stat.Rec) *stat.Failure {
 		return stat.Failf("C15/reader/delivered-bytes-not-a-prefix/"+conc, "%s: %d bytes delivered, first difference at %d", desc, len(out), firstDiff(out, data))
 	}
 	rec.Class("reader/"+conc, "reader/fault-reported")
+	if failWithData(c.FailKind) {
+		rec.Class("reader/fault-reported(error-returned-with-data)")
+	}
 	if c.FailAt > 2 {
 		rec.NonTrivial(stat.FP("r", z, fmt.Sprint(c.R), c.FailAt, c.Sticky))
 		rec.Class("reader/nontrivial")
@@ -243,7 +246,72 @@ func runC15R(c c15RCase, rec *stat.Rec) *stat.Failure {
 	return runC15RWith(c, z, data, rec)
 }
 
+// ---------------------------------------------------------------- Writer.ReadFrom with a failing source
+
+type c15SCase struct {
+	Opts     wopts  `json:"opts"`
+	N        int    `json:"n"`
+	Seed     uint64 `json:"seed"`
+	Chunks   []int  `json:"chunks,omitempty"`
+	FailAt   int    `json:"failat"`
+	FailKind int    `json:"failkind"` // as C18: 0 plain, 1 wraps io.EOF, 2 wraps io.ErrUnexpectedEOF, 3 io.ErrUnexpectedEOF itself, 4/5 as 0/2 with data
+}
+
+func runC15S(c c15SCase, rec *stat.Rec) *stat.Failure {
+	data := opData(c.N, c.Seed)
+	src := &inst.Source{Data: data, Chunks: c.Chunks, FailAt: c.FailAt, FailWith: failErr(c.FailKind), FailData: failWithData(c.FailKind)}
+	var sink inst.Sink
+	w := lz4.NewWriter(&sink)
+	if err := w.Apply(c.Opts.options(len(data), nil)...); err != nil {
+		return stat.Failf("C15/writer/apply-fails", "%v", err)
+	}
+	rec.Eval()
+	n, err := w.ReadFrom(src)
+	cerr := w.Close()
+	if src.Failed == 0 {
+		rec.Class("readfrom-source/fault-index-beyond-the-calls-made")
+		if err != nil || cerr != nil || n != int64(len(data)) {
+			return stat.Failf("C15/readfrom/fault-free-run-fails", "%s, %d bytes: ReadFrom=(%d, %v) Close=%v", c.Opts, len(data), n, err, cerr)
+		}
+		return nil
+	}
+	want := error(inst.ErrInjected)
+	if c.FailKind == 3 {
+		want = io.ErrUnexpectedEOF
+	}
+	rec.Class("readfrom-source/failed", fmt.Sprintf("readfrom-source/kind-%d", c.FailKind))
+	if !errors.Is(err, want) {
+		return stat.Failf(fmt.Sprintf("C15/readfrom/source-failure-not-returned/failkind=%d", c.FailKind), "%s, %d bytes, source chunks %v: the source failed at call %d with %v (with data: %v); ReadFrom returned (%d, %v), Close %v, %d bytes in the sink",
+			c.Opts, len(data), c.Chunks, c.FailAt, want, failWithData(c.FailKind), n, err, cerr, len(sink.Buf))
+	}
+	rec.NonTrivial(stat.FP("rfsrc", fmt.Sprint(c)))
+	return nil
+}
+
+func TestC15ReadFromSource(t *testing.T) {
+	rec := stat.For("C15")
+	rec.SetRule(c15Rule)
+	i := 0
+	for _, conc := range []int{1, 2} {
+		for _, legacy := range []bool{false, true} {
+			for _, n := range []int{0, 100, 65536, 200000} {
+				for kind := 0; kind <= 5; kind++ {
+					for failAt := 1; failAt <= 6; failAt++ {
+						i++
+						if i%nshards != shard {
+							continue
+						}
+						c := c15SCase{Opts: wopts{BS: 4, Conc: conc, Legacy: legacy, ContentSum: true}, N: n, Seed: uint64(n + kind), Chunks: []int{65536, 4096, 65536}, FailAt: failAt, FailKind: kind}
+						pinned(t, "C15", "C15/readfrom-source", c, runC15S)
+					}
+				}
+			}
+		}
+	}
+}
+
 func init() {
+	register("C15", "C15/readfrom-source", runC15S)
 	register("C15", "C15/writer", runC15W)
 	register("C15", "C15/reader", runC15R)
 }
@@ -399,11 +467,15 @@ func TestC15Reader(t *testing.T) {
 		}
 		ks := faultIndices(probe.Calls, 300, rt)
 		for _, k := range ks {
-			for v := 0; v < 3; v++ {
+			for v := 0; v < 4; v++ {
 				cc := c
 				cc.FailAt, cc.Sticky = k, v == 1
 				if v == 2 {
 					cc.FailKind = 1 + k%2 // an injected error that wraps io.EOF / io.ErrUnexpectedEOF
+				}
+				if v == 3 {
+					cc.FailKind = 4 + k%2 // the failing call returns its data together with the error
+					cc.Sticky = k%3 == 0
 				}
 				journal("C15", "C15/reader", cc)
 				judge(rt, "C15", "C15/reader", cc, safelyF(func() *stat.Failure { return runC15RWith(cc, z, data, rec) }))
